@@ -307,6 +307,63 @@ fn excuses(cfg: &RunCfg) -> (crate::known::KnownFile, (bool, bool)) {
     (known, e)
 }
 
+// ---------------------------------------------------------------------------------
+// C02, second generator: a MatchResult built incrementally
+
+#[derive(Clone, Debug, PartialEq, Eq, Hash, serde::Serialize, serde::Deserialize)]
+pub struct Incremental {
+    pub taker: crate::spec::IdSpec,
+    pub initial: u64,
+    /// quantities of the appended transactions, as fractions of what is still remaining
+    pub parts: Vec<(u16, u64)>,
+}
+
+fn incremental() -> proptest::strategy::BoxedStrategy<Incremental> {
+    use proptest::prelude::*;
+    (
+        crate::gen::id_spec(),
+        prop_oneof![crate::gen::boundary_u64(), 0u64..500],
+        proptest::collection::vec((any::<u16>(), crate::gen::boundary_u64()), 0..12),
+    )
+        .prop_map(|(taker, initial, parts)| Incremental { taker, initial, parts })
+        .boxed()
+}
+
+pub fn eval_incremental(c: &Incremental, st: &mut Stats) -> Result<(), String> {
+    use pricelevel::{MatchResult, OrderId, Side, Transaction};
+    let taker = c.taker.build();
+    let mut m = MatchResult::new(taker, c.initial);
+    if m.remaining_quantity != c.initial || m.executed_quantity() != 0 || !m.transactions.is_empty() {
+        return Err(format!("MatchResult::new({}) starts with remaining {} executed {}", c.initial, m.remaining_quantity, m.executed_quantity()));
+    }
+    let mut sum: u64 = 0;
+    for (k, (frac, price)) in c.parts.iter().enumerate() {
+        let left = c.initial - sum;
+        // sum of the appended quantities stays within the initial quantity (domain of the property)
+        let q = if *frac == u16::MAX { left } else { ((left as u128 * *frac as u128) >> 16) as u64 };
+        let t = Transaction::new(uuid::Uuid::from_u128(k as u128), taker, OrderId::from_u64(k as u64), *price, q, Side::Buy);
+        catch(|| m.add_transaction(t)).map_err(|e| format!("add_transaction panicked: {e}"))?;
+        sum += q;
+        if m.remaining_quantity != c.initial - sum {
+            return Err(format!("after appending {} transactions summing to {} of {}: remaining_quantity = {}", k + 1, sum, c.initial, m.remaining_quantity));
+        }
+        if m.is_complete != (m.remaining_quantity == 0) {
+            return Err(format!("is_complete = {} with remaining {}", m.is_complete, m.remaining_quantity));
+        }
+        if m.executed_quantity() != sum {
+            return Err(format!("executed_quantity() = {} but the transactions sum to {}", m.executed_quantity(), sum));
+        }
+        if m.transactions.len() != k + 1 {
+            return Err("transaction list length wrong".into());
+        }
+    }
+    st.count("incremental/results");
+    if c.parts.len() >= 2 && st.nontrivial(hash_of(c)) && st.want_sample() {
+        st.sample(json!({"incremental_match_result": {"initial": c.initial, "appended": c.parts.len(), "sum": sum, "remaining": m.remaining_quantity, "is_complete": m.is_complete}}));
+    }
+    Ok(())
+}
+
 pub fn run(cfg: &RunCfg, hc: &'static HistCheck) -> Report {
     let mut rep = Report::new(hc.id, "exploration", hc.rule);
     rep.assumptions = hc.assumptions.iter().map(|s| s.to_string()).collect();
@@ -323,6 +380,10 @@ pub fn run(cfg: &RunCfg, hc: &'static HistCheck) -> Report {
             |h: &History, st| eval(hc, h, st, excuse),
         ),
     );
+    if hc.id == "C02" && !rep.failed() {
+        let n2 = cfg.cases(300_000, 10_000_000);
+        rep.absorb("incremental_match_result", explore(cfg, "C02-incr", n2, incremental, |c: &Incremental, st| eval_incremental(c, st)));
+    }
     // known findings of this property: replay each listed witness; report those that still reproduce
     for f in known.for_property(hc.id) {
         let hits_in_witness = crate::known::read_witness(&cfg.root, f)
@@ -348,6 +409,10 @@ pub fn run(cfg: &RunCfg, hc: &'static HistCheck) -> Report {
 }
 
 pub fn replay(cfg: &RunCfg, hc: &HistCheck, v: &serde_json::Value) -> Result<(), String> {
+    if v["engine"] == "incremental_match_result" {
+        let c: Incremental = load_case(v)?;
+        return eval_incremental(&c, &mut Stats::default());
+    }
     let h: History = load_case(v)?;
     let mut st = Stats::default();
     let (_, excuse) = excuses(cfg);
